@@ -63,6 +63,9 @@ def scenarios(tier):
     n = 5 if tier == "thorough" else 4
     out = {}
     out["refine-std"] = {"api": "refine", "drops": DROPS5[:n], "kwargs": {}, "shift": 0.4}
+    if tier == "thorough":
+        # six tasks: 3338 completion orders over k = 2..7 and auto
+        out["refine-6"] = {"api": "refine", "drops": DROPS5 + [([13.5, 13.2], 2.2, 0.8)], "kwargs": {"tolerance": 1e-8}, "shift": 0.3}
     out["refine-3"] = {"api": "refine", "drops": [DROPS5[3], DROPS5[1], DROPS5[2]], "kwargs": {"tolerance": 1e-7}, "shift": -0.3}
     out["refine-fit"] = {"api": "refine", "drops": DROPS5[:n], "kwargs": {"vmin": None, "vmax": None, "adjust_values": True}, "shift": 0.25, "affine": [2.0, -0.5]}
     out["refine-sph"] = {"api": "refine", "drops": DROPS5[:n][::-1], "kwargs": {}, "shift": 0.2, "cls": "spherical"}
